@@ -460,6 +460,15 @@ func (w *World) registerSortQueryIntrinsics() {
 	I["net/url.ParseQuery"] = func(e *Exec, fn *ssa.Function, a []Value) Value {
 		s, ok := a[0].(*Term).strVal()
 		if !ok {
+			// a urlencoded body the harness defined (verifHTTPForm), or the text of a JSON
+			// object (read as a query it has no key the callers look for: one odd key, no value)
+			if fv, ok := e.hidden["form:"+a[0].(*Term).String()]; ok {
+				return tuple(fv.(Value), nilIface)
+			}
+			if _, ok := e.hidden["json:"+a[0].(*Term).String()]; ok {
+				e.objCounter++
+				return tuple(&MapVal{id: e.objCounter, ktyp: types.Typ[types.String], vtyp: types.NewSlice(types.Typ[types.String])}, nilIface)
+			}
 			e.unsupported("url.ParseQuery on a symbolic string")
 		}
 		vals, err := url.ParseQuery(s)
